@@ -43,7 +43,7 @@ class C12(scen.WorldProp):
                   "<= 1/2: geometric) and a line the data already lie on is a fixed point for every inertia. "
                   "correspondence: calculate_regression (numpy) vs the closed form on every regression of every run; "
                   "timed keep-going sessions over tempo ratio 0.93..1.07 x human sets >= N/3 x inertia 0..0.5 x towers "
-                  "4..16 x data-set sizes 5..30, human or Wheatley leading, tempo changes of 2-5 %; oracle: distance of "
+                  "4..16 x data-set sizes 5..30, human or Wheatley leading, tempo changes of 2-5 %; two-touch sessions at two tempi each led by a human (look_to_forgets_data); oracle: distance of "
                   "Wheatley's strikes from the humans' line. non-trivial = humans on a line of their own")
 
     def cases(self, rng, tier):
